@@ -27,6 +27,7 @@ RD = "vectorizers/transformers/row_desnoise.py"
 CFC = "vectorizers/transformers/count_feature_compression.py"
 VEC = "vectorizers/_vectorizers.py"
 TREE = "vectorizers/tree_token_cooccurrence.py"
+_NG_W = "            shape=(\n                len(indptr) - 1,\n                max(self.column_label_dictionary_.values(), default=-1) + 1,\n            ),\n"
 
 
 def E(file, func, old, new, count=1):
@@ -45,10 +46,10 @@ def silent(prop, vid, edits, note):
 # ------------------------------------------------------------------------------------------------ C01
 _EL_SHAPE = E(EL, "EdgeListVectorizer.transform", "            shape=self._train_matrix.shape,\n", "")
 fire("C01", "edgelist-noshape", "R1.1", _EL_SHAPE, "revert of d4888b1: transform without shape=")
-fire("C01", "ngram-noshape", "R1.1", E(NG, "NgramVectorizer.transform", "            shape=(len(indptr) - 1, len(self.column_label_dictionary_)),\n", ""), "drop shape= from NgramVectorizer.transform")
+fire("C01", "ngram-noshape", "R1.1", E(NG, "NgramVectorizer.transform", _NG_W, ""), "drop shape= from NgramVectorizer.transform")
 fire("C01", "buildcoo-noshape", "R1.1", E(BASE, "BaseCooccurrenceVectorizer._build_coo",
      "            shape=(\n                self._n_rows,\n                len(self.token_label_dictionary_) * self._n_wide,\n            ),\n", ""), "drop shape= from _build_coo")
-fire("C01", "ngram-width-from-input", "R1.1", E(NG, "NgramVectorizer.transform", "shape=(len(indptr) - 1, len(self.column_label_dictionary_)),", "shape=(len(indptr) - 1, max(indices) + 1),"),
+fire("C01", "ngram-width-from-input", "R1.1", E(NG, "NgramVectorizer.transform", _NG_W, "            shape=(len(indptr) - 1, max(indices) + 1),\n"),
      "width computed from the columns present in the input")
 fire("C01", "skipgram-noshape", "R1.1", E(SG, "SkipgramVectorizer.transform", "            (data, (row, col)),\n            shape=(len(token_sequences), n_unique_tokens ** 2),\n", "            (data, (row, col)),\n"), "revert of 88b0ada (transform side)")
 fire("C01", "lz-pointer", "R1.2", E(MG, "LZCompressionVectorizer.transform", "indptr.append(len(indices))", "indptr.append(indptr[-1] + len(encoding_dict))"), "revert of bb1fd4c")
@@ -57,8 +58,8 @@ fire("C01", "ngram-skip-empty-rows", "R1.3", E(NG, "NgramVectorizer.transform", 
 fire("C01", "bpe-unguarded-lookup", "R1.4", E(MG, "BytePairEncodingVectorizer.transform", "                    for x in row\n                    if x in self.column_label_dictionary_\n", "                    for x in row\n"), "revert of the look-up guard of ed85843")
 fire("C01", "lz-unguarded-lookup", "R1.4", E(MG, "LZCompressionVectorizer.transform", "if ngram in self.column_label_dictionary_:", "if len(ngram) >= 0:"), "membership guard replaced by a vacuous test")
 fire("C01", "bpe-no-oor-mapping", "R1.5", E(MG, "bpe_encode", "compressed_chars[i] = code if code <= max_char_code else 0", "compressed_chars[i] = code"), "out-of-range characters no longer mapped to 0")
-silent("C01", "shape-via-local", E(NG, "NgramVectorizer.transform", "        result = scipy.sparse.csr_matrix(\n            (data, indices, indptr),\n            shape=(len(indptr) - 1, len(self.column_label_dictionary_)),",
-       "        n_cols = len(self.column_label_dictionary_)\n        result = scipy.sparse.csr_matrix(\n            (data, indices, indptr),\n            shape=(len(indptr) - 1, n_cols),"), "shape passed through a temporary")
+silent("C01", "shape-via-local", E(NG, "NgramVectorizer.transform", "        result = scipy.sparse.csr_matrix(\n            (data, indices, indptr),\n" + _NG_W,
+       "        n_cols = max(self.column_label_dictionary_.values(), default=-1) + 1\n        result = scipy.sparse.csr_matrix(\n            (data, indices, indptr),\n            shape=(len(indptr) - 1, n_cols),\n"), "shape passed through a temporary")
 silent("C01", "edgelist-explicit-tuple", E(EL, "EdgeListVectorizer.transform", "shape=self._train_matrix.shape,", "shape=(self._train_matrix.shape[0], self._train_matrix.shape[1]),"), "same fitted shape written as a tuple")
 silent("C01", "lz-rename-loopvar", [E(MG, "LZCompressionVectorizer.transform", "for string in X:", "for text in X:"),
                                     E(MG, "LZCompressionVectorizer.transform", "lempel_ziv_based_encode(string, input_dict", "lempel_ziv_based_encode(text, input_dict")], "rename the loop variable")
@@ -549,6 +550,14 @@ fire("C13", "transform-reads-conditionally-what-it-rewrites", "R13.2", E(TREE, "
      "        raw_token_sequences = [label_sequence for adjacency, label_sequence in X]\n",
      "        if self.nullify_mask:\n            self._mask_index = np.int32(len(self._token_frequencies_))\n        raw_token_sequences = [label_sequence for adjacency, label_sequence in X]\n"),
      "seeded r4_C13: the mask index recomputed in transform from frequencies that the previous transform overwrote; the read sits under a condition")
+fire("C01", "ngram-width-by-len-of-supplied-dictionary", "R1.1", E(NG, "NgramVectorizer.transform", _NG_W, "            shape=(len(indptr) - 1, len(self.column_label_dictionary_)),\n"),
+     "revert of 9fa0875: a supplied ngram_dictionary with indices {0, 3} gives a 2-column matrix holding column id 3")
+fire("C01", "edgelist-shape-by-len-of-dictionaries", "R1.1", E(EL, "EdgeListVectorizer.transform", "            shape=self._train_matrix.shape,\n",
+     "            shape=(len(self.row_label_dictionary_), len(self.column_label_dictionary_)),\n"),
+     "seeded r4_C02: supplied label dictionaries with sparse indices; transform's matrix is narrower than fit_transform's")
+silent("C01", "edgelist-shape-by-largest-index", E(EL, "EdgeListVectorizer.transform", "            shape=self._train_matrix.shape,\n",
+     "            shape=(max(self.row_index_dictionary_) + 1, max(self.column_index_dictionary_) + 1),\n"),
+     "the extent recomputed the way fit computes it")
 # --- C20: bookkeeping clauses of the histogram / KDE vectorizers
 KDEF = "vectorizers/kde_vectorizer.py"
 fire("C20", "left-outlier-overlaps", "R20.1", E(VEC, "add_outier_bins", "left_outlier = pd.Interval(left=absolute_range[0], right=interval_list[0].left)", "left_outlier = pd.Interval(left=absolute_range[0], right=interval_list[0].right)"),
